@@ -100,6 +100,14 @@ def check_C01(ctx):
     rep.count("value_dependent_reader_refusals_examined", nref)      # no floor: a reader without such a refusal has nothing to justify
     rep.rule("ALIGN", "the writer's align and the stream reader's align move by the same amount pad_align_to(position, unit(T)) (the alignment point is an atom of the wire terms; its two implementations are compared here)")
     align_pair(ctx, ("default WriteWithNames", "ReaderWithPos"))
+    rep.rule("G1 / G5", "a stream the writer produces passes the reader's header check: check_header accepts exactly the six conditions, with the two hashes computed as write_header computes them (fresh hasher, the type's own recipe, offset 0) on every call")
+    subh = Report(ctx.prop, ctx.tier)
+    rules_header.rules_G(ctx.universe("default", CORPUS), subh)
+    for f_ in subh.findings:
+        if f_.rule in ("G1", "G5", "ANCHOR"):
+            rep.findings.append(f_)
+    rep.obligations += subh.obligations
+    rep.discharged += subh.discharged
     rep.rule("STR-BOUNDARY", "serialization is total over type names: byte-offset string operations of std in ser/ (truncate, split_at, slicing, ...) take their offset from a char-boundary-producing operation")
     rules_err.rule_str_offsets(ctx.universe("default", CORPUS), rep, ("epserde/src/ser/mod.rs", "epserde/src/ser/helpers.rs", "epserde/src/ser/write.rs"))
     rep.rule("WRITE-FWD", "the writer primitive `write` hands every value to its own writer exactly once (no shortcut for a class of types), and write_bytes emits exactly the slice it is given: the wire terms are what reaches the stream")
@@ -161,6 +169,8 @@ def check_C15(ctx):
     uu = ctx.universe("default", CORPUS)
     for md in ("full", "eps"):
         rules_err.rule_reader_refusals(uu, rep, md, relabel_ok="primitive", tags_only=True)
+    rep.rule("P-ERR", "an InvalidTag raised by an element's reader is not lost in an iterator adaptor that drops the Err items of a sequence of Results (flat_map / flatten / filter_map over Results), on either side")
+    rules_err.rule_err_adaptors(uu, rep, DESER_SCOPE, errs=rules_err.DESER_ERRS)
     rep.rule("WRITE-FWD", "the tag a variant's writer emits reaches the stream: the writer primitive `write` hands every value to its own writer exactly once, whatever its type (a zero-sized single-variant enum still owns a tag)")
     rep.floor("default write paths", rules_align.rule_write_delegates(uu, rep), 1)
     if ctx.tier == "thorough":
@@ -468,6 +478,8 @@ def check_C06(ctx):
     rep.floor("golden entries compared", n, 200)
     u, w, ts, exp = ctx.triples("default", CORPUS)
     rules_header.rules_G6(u, rep)
+    # the padding arithmetic itself, on the units where "the next multiple" and the mask form differ
+    rep.floor("padding-format grid points", rules_align.rule_pad_format(u, rep), 100)
     # derived writers against the definition
     nd = 0
     for t in ts:
@@ -857,6 +869,10 @@ def check_C18(ctx):
     rules_schema.rules_schema_writer(u, rep)
     rules_schema.rules_schema_render(u, rep)
     rep.rule("ENTRY", "Serialize::serialize and serialize_with_schema put the same atoms on the backend in the same order and both end by flushing it")
+    rep.rule("BYPASS", "inside a writer, a nested value reaches the stream through backend.write(name, value), where the recording writer opens its row, never through value._serialize_inner(backend) directly (delegating the whole of self is not nesting)")
+    _u2, _w2, ts18, _e2 = ctx.triples("default", CORPUS)
+    nb18 = rules_schema.rule_no_bypass(u, ts18, rep)
+    rep.count("direct_serialize_inner_calls_examined", nb18)
     ne = rules_schema.rule_entry_points(u, rep)
     rep.floor("serialization entry points compared", ne, 2)
     rep.floor("SchemaWriter method paths analysed", rep.counters.get("schema_writer_paths", 0), 6)
